@@ -656,6 +656,14 @@ clientReplyContext::cacheHit(const StoreIOBuffer result)
              */
             http->updateLoggingTags(LOG_TCP_CLIENT_REFRESH_MISS);
             processMiss();
+        } else if (r->flags.loopDetected) {
+            debugs(88, 3, "validate HIT object? NO. Forwarding loop detected. Do MISS.");
+            /*
+             * Revalidation would forward the looping request. Let
+             * processMiss() deny it like any other looping miss.
+             */
+            http->updateLoggingTags(LOG_TCP_MISS);
+            processMiss();
         } else if (r->url.getScheme() == AnyP::PROTO_HTTP || r->url.getScheme() == AnyP::PROTO_HTTPS) {
             debugs(88, 3, "validate HIT object? YES.");
             /*
